@@ -68,6 +68,8 @@ var scopeTable = []scopeEntry{
 	sc("DECL-5", `:insert`, "C18"),
 	sc("DECL-5", `:listed`, "C16", "C18"),
 	sc("DECL-5", `validArgName`, "C18"),
+	sc("LEX-4", `:first-byte`, "C08", "C18"), // a declared argument name is validated with the scanner
+	sc("LEX-4", `.`, "C08"),
 	sc("DECL-5", `^writers\(Cmd\.argsIdx\)`, "C18"),
 	// hook chain
 	sc("FLOW-1", `:(Before-step|After-step|root-steps)`, "C05"),
@@ -87,6 +89,8 @@ var scopeTable = []scopeEntry{
 	sc("FSM-6", `:clears-env-flag`, "C06", "C12"),
 	sc("FSM-6", `:error-returned`, "C07", "C13", "C19"),
 	sc("FSM-6", `:every-container`, "C02", "C06", "C13", "C15", "C19"),
+	sc("FSM-7", `:strip$`, "C01", "C02", "C09", "C19"), // C19: a value type receives every token bound to it, a later `--` included
+	sc("FSM-7", `.`, "C01", "C02", "C09"),
 	sc("FSM-6", `:set-each-in-order`, "C02", "C06", "C09", "C13", "C19"), // C09: what follows -- is bound verbatim
 	sc("FSM-6", `:sets-user-flag`, "C15"),
 	sc("FSM-6", `^writers\(\*ValueSetByUser\)`, "C15"),
